@@ -122,6 +122,11 @@ func TestVerifReplay(t *testing.T) {
 		return false, "replay did not run: " + firstLines(s, 6)
 	}
 	if kind == "witness" {
+		// the replay nd ends the run with os.Exit(0) once the vector is exhausted, which the test
+		// binary reports as a panic: only what happened before REPLAY-END counts
+		if i := strings.Index(s, "REPLAY-END"); i >= 0 {
+			s = s[:i]
+		}
 		switch {
 		case strings.Contains(s, "ASSERT-FAILED: "):
 			return false, "native run fails an assertion on the witness: " + firstLines(s, 4)
